@@ -71,29 +71,41 @@ def dictSet (d : List Sig) (s : Sig) : List Sig :=
 /-- `d.pop(p, None)` -/
 def dictPop (d : List Sig) (p : Str) : List Sig := d.filter (fun x => x.pat ≠ p)
 
-/-- `Membrane.filter(signal)` at time `now` on content `c`. -/
-def Membrane.filter (env : Env) (m : Membrane) (now : Nat) (c : Str) : Membrane × Out FilterRes :=
-  if (rateCheck m now).1 then
-    ({ m with reqTimes := (rateCheck m now).2
+/-- last part of `filter`: the decision once the scan produced `ms` with maximum `lvl`
+    (`ts` = the request list left by the rate check) -/
+def Membrane.decide (m : Membrane) (ts : List Nat) (c : Str) (ms : List Sig) (lvl : Nat) : Membrane × Out FilterRes :=
+  if lvl < m.threshold then
+    ({ m with reqTimes := ts
+              audit := m.audit ++ [⟨true, lvl, ms, c, .scan⟩]
+              totalFiltered := m.totalFiltered + 1 },
+     .ok ⟨true, lvl, ms, c, .scan⟩)
+  else
+    ({ m with reqTimes := ts
+              blocked := c :: m.blocked
+              audit := m.audit ++ [⟨false, lvl, ms, c, .scan⟩]
+              totalFiltered := m.totalFiltered + 1, totalBlocked := m.totalBlocked + 1 },
+     .ok ⟨false, lvl, ms, c, .scan⟩)
+
+/-- `filter` after `_check_rate_limit` returned `rc` = (limited?, new request list): rate-limit exit, replay
+    exit, or the scan over innate + custom + learned signatures -/
+def Membrane.afterRate (env : Env) (m : Membrane) (c : Str) (rc : Bool × List Nat) : Membrane × Out FilterRes :=
+  if rc.1 then
+    ({ m with reqTimes := rc.2
               audit := m.audit ++ [⟨false, critical, [], c, .rate⟩]
               totalFiltered := m.totalFiltered + 1, totalBlocked := m.totalBlocked + 1 },
      .ok ⟨false, critical, [], c, .rate⟩)
   else if c ∈ m.blocked then
-    ({ m with reqTimes := (rateCheck m now).2
+    ({ m with reqTimes := rc.2
               audit := m.audit ++ [⟨false, critical, [], c, .replay⟩]
               totalFiltered := m.totalFiltered + 1, totalBlocked := m.totalBlocked + 1 },
      .ok ⟨false, critical, [], c, .replay⟩)
-  else if maxLevel (matched env m.active c) < m.threshold then
-    ({ m with reqTimes := (rateCheck m now).2
-              audit := m.audit ++ [⟨true, maxLevel (matched env m.active c), matched env m.active c, c, .scan⟩]
-              totalFiltered := m.totalFiltered + 1 },
-     .ok ⟨true, maxLevel (matched env m.active c), matched env m.active c, c, .scan⟩)
   else
-    ({ m with reqTimes := (rateCheck m now).2
-              blocked := c :: m.blocked
-              audit := m.audit ++ [⟨false, maxLevel (matched env m.active c), matched env m.active c, c, .scan⟩]
-              totalFiltered := m.totalFiltered + 1, totalBlocked := m.totalBlocked + 1 },
-     .ok ⟨false, maxLevel (matched env m.active c), matched env m.active c, c, .scan⟩)
+    (fun ms => m.decide rc.2 c ms (maxLevel ms)) (matched env m.active c)
+
+/-- `Membrane.filter(signal)` at time `now` on content `c`.  (Since the `fix:` commit the hash is taken with
+    `surrogatepass`, so no input raises; the `Out` type keeps the possibility visible.) -/
+def Membrane.filter (env : Env) (m : Membrane) (now : Nat) (c : Str) : Membrane × Out FilterRes :=
+  m.afterRate env c (rateCheck m now)
 
 /-- `learn_threat`: constructs the signature (compiling a regex may raise `re.error`), stores it only when
     adaptive immunity is enabled. -/
